@@ -5,6 +5,6 @@ REG = dict(
                  "weights are non-negative and sum to 1 within 1e-10 (the constructor's own check)"],
 )
 TEXT = dict(
-    level="Universal Lean theorems (any sample with ties/zero weights/±inf, any bounds, any query; values in any linear order, weights in any ordered field): the model's cdf/pmf equal the normalised weight of observations <=y / =y and ppf satisfies the Galois law ppf q <= y <-> q <= cdf y; restated for the very terms the driver runs. The model is tied to the code on every run by exact-rational differential execution (cdf/pmf to the property's 1e-12, ppf exactly outside the excluded 1e-12 tie zone, moments, shapes).",
+    level="Universal Lean theorems (any sample with ties/zero weights/±inf, any bounds, any query; values in any linear order, weights in any ordered field): the model's cdf/pmf equal the normalised weight of observations <=y / =y and ppf satisfies the Galois law ppf q <= y <-> q <= cdf y; restated for the very terms the driver runs. The model is tied to the code on every run by exact-rational differential execution (cdf/pmf to the property's 1e-12, ppf exactly outside the excluded 1e-12 tie zone, moments, shapes). Also proved: ppf(0) = a (sign condition on a weight at -inf shown necessary), ppf(1) is the least point >= a with cdf = 1, ppf monotone on all of [0,1]; the cdf is a step function (constant across any gap without observations; right-continuous), pmf(y) is the jump of the cdf at y; the mean and variance attributes are the moments of the step distribution (sum over merged atoms of pmf(v) v and pmf(v)(v-mean)^2; the ws>0 filter drops only zero terms; the unweighted and the 1/N-weighted branches agree).",
     note='Proved: Model = Spec in exact arithmetic. Compared, not proved: numpy float rounding (inside the 1e-12 of the property), np.unique/searchsorted/argmax semantics (mirrored by the model and exercised by the correspondence). NaN observations excluded.',
 )
